@@ -1374,7 +1374,10 @@ macro_rules! skip_iterator_iter_base {
         #[inline(always)]
         fn current_count(&self) -> usize {
             if Self::IS_CONTIGUOUS {
-                self.byte.current_count()
+                // NOTE: This must be the cursor even if another component of
+                // the format is not contiguous: the digit counts of `byte`
+                // are not incremented by contiguous iterators.
+                self.byte.index
             } else {
                 self.byte.$count
             }
